@@ -379,6 +379,11 @@ class EvenSamplingTrajectory(TrajectoryCum):
                 # trigger hop
                 spawn.update_weight(stack.weight())
 
+                # a child born on the very step at which a limit is met never runs:
+                # log the state it was born in, or its trace ends with its parent's
+                if not spawn.continue_simulating():
+                    spawn.trace(force=True)
+
                 # add to total trajectory queue
                 self.queue.put(spawn)
             self.update_weight(self.spawn_stack.weight())
